@@ -2399,7 +2399,7 @@ func (c *streamableClientConn) Write(ctx context.Context, msg jsonrpc.Message) e
 	contentType := baseMediaType(resp.Header.Get("Content-Type"))
 	switch contentType {
 	case "application/json":
-		go c.handleJSON(requestSummary, resp)
+		go c.handleJSON(ctx, requestSummary, resp)
 
 	case "text/event-stream":
 		var forCall *jsonrpc.Request
@@ -2480,10 +2480,16 @@ func protocolVersionFromMessage(msg jsonrpc.Message) string {
 	return v
 }
 
-func (c *streamableClientConn) handleJSON(requestSummary string, resp *http.Response) {
+func (c *streamableClientConn) handleJSON(ctx context.Context, requestSummary string, resp *http.Response) {
 	body, err := io.ReadAll(resp.Body)
 	resp.Body.Close()
 	if err != nil {
+		if ctx.Err() != nil {
+			// The caller abandoned the request (ctx is the context of the HTTP
+			// request): the read failed because of that, not because the
+			// connection is broken. The call has been retired already.
+			return
+		}
 		c.fail(fmt.Errorf("%s: failed to read body: %v", requestSummary, err))
 		return
 	}
